@@ -116,14 +116,29 @@ def gen_from(schema, born, rnd, nids):
     return {'k': 'sel', 'c': c, 'ops': gen_ops(schema, c, rnd, nids, 2)}
 
 
-def battery(kinds, per_step=3, dup_eq=False):
-    """returns obs(schema, acts, rnd) -> list (per step) of lists of observation records"""
+def battery(kinds, per_step=3, dup_eq=False, sticky=0):
+    """returns obs(schema, acts, rnd) -> list (per step) of lists of observation records; `sticky` selections are drawn
+    once per history and asked again after every step (an equality filter on a referential or other attribute, now and then
+    followed by an ordering): the answer to a repeated question follows the model"""
     def obs(schema, acts, rnd):
         out = []
         rels = sorted({a['rel'] for a in schema['assocs']})
+        fixed = []
+        for _ in range(sticky):
+            cs = [c for c in schema['classes'] if any(a['src'] == c for a in schema['assocs'])] * 2 + list(schema['classes'])
+            c = rnd.choice(cs)
+            refs = [k for a in schema['assocs'] if a['src'] == c for k in a['skeys']]
+            n = rnd.choice(refs * 3 + [a['n'] for a in schema['attrs'][c]])
+            ty = [a['t'] for a in schema['attrs'][c] if a['n'] == n][0]
+            v = 'u:%d' % rnd.choice([1, 2, 3, 201, 202, 203]) if ty == 'UNIQUE_ID' else value_for(schema, c, n, rnd, 4)
+            ops = [{'k': 'eq', 'kv': [[n, v]]}]
+            plain = plain_attrs(schema, c)
+            if plain and rnd.random() < 0.3:
+                ops.append({'k': 'ord', 'ns': [rnd.choice(plain)], 'rev': rnd.random() < 0.5})
+            fixed.append({'k': 'sel', 'form': rnd.choice(['many', 'many', 'one']), 'c': c, 'ops': ops})
         for born in born_per_step(schema, acts):
             nids = sum(born.values()) * 2 + 2
-            qs = []
+            qs = [dict(q) for q in fixed]
             for _ in range(per_step):
                 kind = rnd.choice(kinds)
                 c = rnd.choice(schema['classes'])
